@@ -1,0 +1,73 @@
+//! Trace emitter for the external conformance harness.
+//! Only compiled with `--cfg e57_verif`, only active when the environment variable
+//! `E57_VERIF_TRACE` names a file. Every event is one JSON line written under a lock,
+//! tagged with the id of the page reader/writer instance it belongs to.
+use std::fs::{File, OpenOptions};
+use std::io::{Read, Seek, SeekFrom, Write};
+use std::sync::atomic::{AtomicU64, Ordering};
+use std::sync::{Mutex, OnceLock};
+
+static OUT: OnceLock<Option<Mutex<File>>> = OnceLock::new();
+static NEXT_ID: AtomicU64 = AtomicU64::new(1);
+const SNAPSHOT_LIMIT: u64 = 1024 * 1024;
+
+fn out() -> &'static Option<Mutex<File>> {
+    OUT.get_or_init(|| {
+        std::env::var("E57_VERIF_TRACE")
+            .ok()
+            .and_then(|p| OpenOptions::new().create(true).append(true).open(p).ok())
+            .map(Mutex::new)
+    })
+}
+
+pub fn enabled() -> bool {
+    out().is_some()
+}
+
+/// Allocates an instance id and emits its first event.
+pub fn new_id(body: &str) -> u64 {
+    let id = NEXT_ID.fetch_add(1, Ordering::Relaxed);
+    emit(id, body);
+    id
+}
+
+pub fn emit(id: u64, body: &str) {
+    if let Some(file) = out() {
+        if let Ok(mut file) = file.lock() {
+            let pid = std::process::id();
+            let _ = writeln!(file, "{{\"inst\":\"{pid}-{id}\",{body}}}");
+        }
+    }
+}
+
+pub fn bytes(data: &[u8]) -> String {
+    let mut s = String::with_capacity(data.len() * 4 + 2);
+    s.push('[');
+    for (i, b) in data.iter().enumerate() {
+        if i > 0 {
+            s.push(',');
+        }
+        s.push_str(&b.to_string());
+    }
+    s.push(']');
+    s
+}
+
+/// Reads the whole device (if it is small enough) and restores the position.
+pub fn snapshot<T: Read + Seek>(device: &mut T) -> Option<String> {
+    if !enabled() {
+        return None;
+    }
+    let pos = device.stream_position().ok()?;
+    let size = device.seek(SeekFrom::End(0)).ok()?;
+    let result = if size <= SNAPSHOT_LIMIT {
+        let mut data = Vec::new();
+        device.seek(SeekFrom::Start(0)).ok()?;
+        device.read_to_end(&mut data).ok()?;
+        Some(bytes(&data))
+    } else {
+        None
+    };
+    device.seek(SeekFrom::Start(pos)).ok()?;
+    result
+}
